@@ -79,3 +79,14 @@ PROPS["C01"] = dict(
         dict(test="^TestC01_Sweep$", quick=dict(timeout=900), thorough=dict(shards=4, timeout=1800)),
     ],
 )
+
+PROPS["C03"] = dict(
+    pkg="c03", race=True, level="exploration",
+    technique="rapid-generated concurrent workloads with a harness-owned slow sink, self-validating payloads, a concurrent-vs-sequential metamorphic multiset oracle, and the race detector",
+    level_text="Exploration over schedules and inputs: 2-64 goroutines log self-validating events through every synchronous path to console/file/rolling sinks; the console sink consumes bytes slowly in chunks (the harness owns that part of the schedule); every line must be whole and the multiset of concurrently written lines must equal byte-for-byte what the same events produce one at a time; built with -race so that a recycled buffer still being written is a happens-before report even for file sinks.",
+    level_note="Interleavings are sampled, not enumerated. Trusted: Go's race detector and the harness sink. File sinks cannot be slowed in-process; for them the race detector and the multiset oracle carry the check.",
+    rule="generated (G, events, layout, path, bufferCap, payload sizes, sink delay pattern)",
+    steps=[
+        dict(test="^Test(Regress_C03|C03_Concurrent)$", quick=dict(checks=60, timeout=900), thorough=dict(checks=250, shards=12, timeout=3000)),
+    ],
+)
